@@ -12,6 +12,10 @@ MOD = 'mirsym.checks.c19'
 SETS = [['x'], ['x', 'y:z'], ['update:model-value', 'x', 'close'], ['a-b', 'c:d']]
 
 
+PARAMS = {'ident': 'ctx', 'no-emit': '{{ slots, attrs }}', 'emit': '{{ emit }}', 'empty': '{{}}', 'rename': '{{ emit: fire }}', 'rest': '{{ slots, ...rest }}', 'expose': '{{ expose }}',
+          'emit-default': '{{ emit, slots = null }}', 'nested': '{{ attrs: {{ id }} }}'}
+
+
 def sig(n, extra=''):
     return "(e: '%s'%s): void" % (n, extra)
 
@@ -62,6 +66,8 @@ def make_skeleton(spec):
     else:
         name, before, texpr, after = [e for e in encodings(ev) if e[0] == spec['enc']][0]
         ann = 'ctx: SetupContext<%s>' % texpr if not spec.get('targ2') else 'ctx: SetupContext<%s, %s>' % (texpr, {'slots': 'SlotsType<{{ default: () => any }}>', 'empty': '{{}}', 'any': 'any'}[spec['targ2']])
+        # the second parameter may be any pattern: what is declared is in its annotation
+        ann = PARAMS[spec.get('param', 'ident')] + ann[3:]
         expected = ev
     ptype = '{{ a: string }}'
     if spec.get('ctx') == 'pick-props':
@@ -77,7 +83,7 @@ def make_skeleton(spec):
     shadow = 'interface Em {{ (e: "shadowed"): void }}\ntype Ev = "shadowed2";\n' if spec.get('scope', 'top') != 'top' else ''
     src = rt.module_src('EXPECT-EMITS', expected, before, call, after, spec.get('scope', 'top'), shadow).replace("from 'vue'", "from 'vue'") \
         .replace("import {{ defineComponent }} from 'vue';", "import {{ defineComponent, type SetupContext, type SlotsType }} from 'vue';")
-    return Skeleton('c19#%s|%s|%s|%s%s' % (','.join(ev), spec['enc'], spec.get('scope', 'top'), spec.get('setup', 'arrow'), ('|' + spec['ctx'] if spec.get('ctx') else '') + ('|targ2:' + spec['targ2'] if spec.get('targ2') else '')), src, [], {'resolve_type': True}, tsx=True,
+    return Skeleton('c19#%s|%s|%s|%s%s' % (','.join(ev), spec['enc'], spec.get('scope', 'top'), spec.get('setup', 'arrow'), ('|' + spec['ctx'] if spec.get('ctx') else '') + ('|targ2:' + spec['targ2'] if spec.get('targ2') else '') + ('|param:' + spec['param'] if spec.get('param') else '')), src, [], {'resolve_type': True}, tsx=True,
                     meta={'family': 'c19/' + spec['enc']})
 
 
@@ -139,6 +145,16 @@ def jobs(tier):
                 continue
             for t2 in (('slots',) if tier == 'quick' and e[0] not in ('interface', 'fn-union-param', 'property') else ('slots', 'empty', 'any')):
                 out.append({'events': ev, 'enc': e[0], 'targ2': t2})
+    for ev in sets[1:2] if tier == 'quick' else sets:
+        for e in encodings(ev):
+            if e[0].startswith('after-') or (tier == 'quick' and e[0] not in ('interface', 'alias-fn', 'literal-union-alias', 'extends', 'property', 'fn-union-param', 'inline-fn')):
+                continue
+            for pm in PARAMS:
+                if pm == 'ident':
+                    continue
+                out.append({'events': ev, 'enc': e[0], 'param': pm})
+                if pm in ('no-emit', 'empty'):
+                    out.append({'events': ev, 'enc': e[0], 'param': pm, 'setup': 'fn'})
     for k in ('none', 'any', 'bare', 'other-name'):
         out.append({'events': [], 'enc': k})
         out.append({'events': [], 'enc': k, 'setup': 'fn'})
@@ -158,7 +174,7 @@ def classify(v, detail):
 def main(argv):
     rep = common.Report(PROP)
     js = jobs(rep.tier)
-    rep.bounds = {'event_sets': SETS, 'encodings': [e[0] for e in encodings(SETS[1])] + ['none', 'any', 'bare SetupContext', 'other generic name'], 'scopes': ['top', 'local shadowing', 'local with a call / a directive / a let and an if statement among the declarations', 'block statement of the module'], 'setup': ['arrow', 'function expression'], 'module_contexts': ['single call', 'a second / third component of the module using the same type', 'props type expanding the same literal-union alias']}
+    rep.bounds = {'event_sets': SETS, 'encodings': [e[0] for e in encodings(SETS[1])] + ['none', 'any', 'bare SetupContext', 'other generic name'], 'scopes': ['top', 'local shadowing', 'local with a call / a directive / a let and an if statement among the declarations', 'block statement of the module'], 'setup': ['arrow', 'function expression'], 'second_parameter_patterns': sorted(PARAMS), 'module_contexts': ['single call', 'a second / third component of the module using the same type', 'props type expanding the same literal-union alias']}
     rep.assumptions = ['the expectation travels in the module as a generator-written comment']
     res = common.run_jobs('mirsym.checks.elements', 'run_family_job', js)
     raw = []
